@@ -1001,7 +1001,7 @@ func c11Oracle(s *sim, op Op, idx int) {
 		// version counters restart with the process
 		st.gs, st.sm = map[viewKey]*viewTrack{}, map[viewKey]*viewTrack{}
 		st.gsSeen, st.smSeen = s.incStartGS, s.incStartSM
-		st.nilVoted, st.pendingNil, st.prevVoting = nil, nil, viewKey{}
+		st.nilVoted, st.pendingNil, st.prevVoting, st.prevJust = nil, nil, viewKey{}, ""
 		st.byVersion = map[string]string{}
 	}
 	for ; st.gsSeen < len(s.gsRecv); st.gsSeen++ {
@@ -1063,7 +1063,12 @@ func c11Oracle(s *sim, op Op, idx int) {
 	// the round left by a nil commit / full vote: its justification must reach gossip (when the reader is not stalled)
 	if st.prevVoting.H == s.vv.Height && s.vv.Round > st.prevVoting.R && st.prevVoting.H != 0 {
 		s.label("round-advanced")
-		if j := s.roundLeftJustification(st.prevVoting.H, st.prevVoting.R); j != "" {
+		if j := s.roundLeftJustification(st.prevVoting.H, st.prevVoting.R); j != "" && st.prevJust != "" {
+			// the nil majority / full vote was already there before this step and the mirror stayed
+			// (it is only evaluated when a vote for that round arrives): what made it leave now is
+			// this step's input for a later round (skip), which the new voting view itself carries
+			s.label("round-left-by-skip-although-fully-voted")
+		} else if j != "" {
 			st.pendingNil = append(st.pendingNil, pendingNil{K: st.prevVoting, Why: j, Step: s.step, Fresh: true})
 		}
 		if s.gsStalled {
@@ -1080,6 +1085,7 @@ func c11Oracle(s *sim, op Op, idx int) {
 		}
 	}
 	st.prevVoting = viewKey{s.vv.Height, s.vv.Round}
+	st.prevJust = s.roundLeftJustification(s.vv.Height, s.vv.Round)
 	if !s.gsStalled {
 		for _, p := range st.pendingNil {
 			found := false
@@ -1163,6 +1169,7 @@ type c11State struct {
 	nilVoted       []*tmconsensus.VersionedRoundView
 	pendingNil     []pendingNil
 	prevVoting     viewKey
+	prevJust       string // justification for leaving prevVoting that already held at the end of the previous step
 	smEnt          viewKey
 	smJump         bool
 }
